@@ -5,6 +5,7 @@
    Indices are positions in lists (nat); data values are an arbitrary type A (a scalar, or a vector /
    cube of channels for variables with extra dimensions; a data NaN is just one of the values of A).
    A NaN *padding* cell of the bin matrix is None. *)
+From Coq Require Import String.          (* before List: `length`, `concat` below are the list functions *)
 From Coq Require Import Arith List Bool ZArith.
 Import ListNotations.
 
@@ -109,6 +110,41 @@ Section Bins.
     map snd (filter (fun ij => fst ij =? c) (combine refrow otherrow)).
 End Bins.
 
+(* ------------------------------------------------------------------ the collapser functions
+   for func_name, func in collapser.items(): collapsed[f"{var_name}_{func_name}"] = func(binned_data, 0)
+   A data value is an arbitrary type A (all lanes of the extra dimensions of one point); lane f : A -> option X
+   reads one scalar of it, None = NaN.  numpy does not tell the NaN padding from a NaN in the data: what a
+   collapser function sees of lane f of a cell is `cell_view f`. *)
+Definition cell_view {A X : Type} (f : A -> option X) (o : option A) : option X :=
+  match o with Some a => f a | None => None end.
+(* np.count_nonzero(~np.isnan(m), axis=0) *)
+Definition count {X : Type} (l : list (option X)) : nat := length (somes l).
+
+(* python dictionaries with string keys, in insertion order *)
+Section Dict.
+  Context {V : Type}.
+  Definition dict := list (string * V).
+  Fixpoint lookup (k : string) (d : dict) : option V :=
+    match d with
+    | [] => None
+    | kv :: t => if String.eqb k (fst kv) then Some (snd kv) else lookup k t
+    end.
+  Definition has_key (k : string) (d : dict) : bool :=
+    match lookup k d with Some _ => true | None => false end.
+  (* {**defaults, **custom}: the keys of `defaults` keep their place and take the custom value if there is one,
+     the new keys follow in their own order *)
+  Definition merge (defaults custom : dict) : dict :=
+    map (fun kv => (fst kv, match lookup (fst kv) custom with Some v => v | None => snd kv end)) defaults
+    ++ filter (fun kv => negb (has_key (fst kv) defaults)) custom.
+End Dict.
+Arguments dict : clear implicits.
+
+(* collapser = {"mean": ..., "std": ..., "number": ..., **collapser}: the names of the output fields of a call
+   (Model/C13_stats.v gives the three functions; effective_names there shows that these are their names) *)
+Definition default_names : list string := ["mean"%string; "std"%string; "number"%string].
+Definition collapser_names (custom : list string) : list string :=
+  map fst (merge (map (fun k => (k, tt)) default_names) (map (fun k => (k, tt)) custom)).
+
 (* ------------------------------------------------------------------ expand
    dataset.isel(primary/collocation = pairs[0]).isel(secondary/collocation = pairs[1]), then both
    dimensions are renamed to the common dimension "collocation": row k holds both selections. *)
@@ -176,6 +212,22 @@ Definition run_collapse (d : cds nat nat) (ref_secondary : bool)
   (map (fun col => zs (somes col)) m,
    map (fun c => zs (gather 0 (partner_points refrow otherrow c) othervals)) (seq 0 nref),
    (Z.of_nat h, Z.of_nat (length m), forallb (fun col => length col =? h) m)).
+
+(* <var>_number and the NaN-ness of <var>_mean / <var>_std, exactly: the harness hands over the validity flags of
+   the other group's variable (one list of flags per stored point, one flag per lane of the extra dimensions);
+   model: count over lane j of every column of the bin matrix; spec: count over lane j of the partner points.
+   Theorem collapse_number_by_mask: counting flags is counting the non-NaN real values. *)
+Definition mask_lane (j : nat) (a : list bool) : option unit := if nth j a false then Some tt else None.
+Definition run_counts (d : cds nat nat) (ref_secondary : bool) (masks : list (list bool)) (nlanes : Z)
+  : list (list Z) * list (list Z) :=
+  let refrow := if ref_secondary then srow d else prow d in
+  let otherrow := if ref_secondary then prow d else srow d in
+  let nref := if ref_secondary then length (svals d) else length (pvals d) in
+  let lanes := seq 0 (Z.to_nat nlanes) in
+  let m := collapse_model [] refrow otherrow masks in
+  (map (fun col => map (fun j => Z.of_nat (count (map (cell_view (mask_lane j)) col))) lanes) m,
+   map (fun c => map (fun j => Z.of_nat (count (map (mask_lane j) (gather [] (partner_points refrow otherrow c) masks))))
+                     lanes) (seq 0 nref)).
 
 Definition run_dataset (np nsec : Z) (pr sr : list Z) :=
   let d := ids_cds np nsec pr sr in
